@@ -757,13 +757,14 @@ pub fn join(toks: &[String], layout: Layout) -> (String, Vec<(usize, usize)>) {
     let mut s = String::new();
     let mut ranges = Vec::with_capacity(toks.len());
     let mut depth = 0usize;
+    let mut brackets = 0usize;
     for (i, t) in toks.iter().enumerate() {
         if i > 0 {
             let prev = toks[i - 1].as_str();
             match layout {
                 Layout::Pretty | Layout::PrettyCrlf => {
                     let nl = if layout == Layout::Pretty { "\n" } else { "\r\n" };
-                    if prev == ";" || prev == "{" || (prev == "}" && t != "," && t != ";" && t != ")") {
+                    if (prev == ";" && brackets == 0) || prev == "{" || (prev == "}" && t != "," && t != ";" && t != ")") {
                         s.push_str(nl);
                         let d = if t == "}" { depth.saturating_sub(1) } else { depth };
                         for _ in 0..d {
@@ -788,6 +789,11 @@ pub fn join(toks: &[String], layout: Layout) -> (String, Vec<(usize, usize)>) {
                 Layout::Comments => s.push_str(" /* c; } */ "),
                 Layout::LineComments => s.push_str(" // é嗨 ; }\n"),
             }
+        }
+        if t == "[" || t == "list![" {
+            brackets += 1;
+        } else if t == "]" {
+            brackets = brackets.saturating_sub(1);
         }
         if t == "{" {
             depth += 1;
